@@ -8,4 +8,13 @@ from replay.common import load, done  # noqa: E402
 from replay import proxy_bank  # noqa: E402
 
 p = load()
-done(**proxy_bank.bank("C18"))
+if "GeminiServerProtocol" in p.get("obligation", ""):
+    from replay import server_bank
+    done(**server_bank.bank("C18"))
+r = proxy_bank.bank("C18")
+if not r.get("confirmed") and p.get("obligation") == "__bounded__":
+    from replay import server_bank
+    r2 = server_bank.bank("C18")
+    if r2.get("confirmed"):
+        r = r2
+done(**r)
